@@ -51,6 +51,7 @@ Inductive op :=
 (* informers *)
 | DeliverNode | DeliverNodeTombstone | DeliverCC
 | ResyncNodes | ResyncCCs
+| RelistNodes | RelistCCs          (* the watch broke: the informer lists again and replaces its store (DeltaFIFO.Replace) *)
 (* workers *)
 | FetchNode (w : N) (key : str) | RunNode (w : N) (outs : list patch_outcome)
 | FetchCC (w : N) (key : str) | RunCC (w : N) (out : upd_outcome)
@@ -263,6 +264,29 @@ Section Step.
     let w1 := set_caches w (w_ncache w) cache' (w_nfeed w) (w_cfeed w) in
     (match w_ctl w1 with Some _ => set_queues w1 (w_nq w1) (q_add (o_name o) (w_cq w1)) | None => w1 end, no_obs).
 
+  (* a relist: pending watch events are dropped; every listed object is delivered as an update (or add), then every
+     stored object that is no longer listed is delivered as a deletion carrying the store's last known state; a
+     panic in a handler ends the process *)
+  Fixpoint deliver_all_n (w : world) (es : list nevent) (acc : N) : world * obs :=
+    match es with
+    | [] => (w, mkObs acc [] false)
+    | e :: es' => let '(w1, ob) := handle_nevent w e in
+                  if ob_res ob =? 3 then (w1, mkObs 3 [] false) else deliver_all_n w1 es' (ob_res ob)
+    end.
+  Fixpoint deliver_all_c (w : world) (es : list cevent) : world :=
+    match es with
+    | [] => w
+    | e :: es' => deliver_all_c (fst (handle_cevent w e)) es'
+    end.
+  Definition relist_nevents (w : world) : list nevent :=
+    map (fun a => NUpd (node_view a)) (w_nodes w) ++
+    flat_map (fun k => match find_anode k (w_nodes w), find_node k (w_ncache w) with
+                       | None, Some n => [NDel n] | _, _ => [] end) (sort_by str_ltb (map n_name (w_ncache w))).
+  Definition relist_cevents (w : world) : list cevent :=
+    map CUpd (w_ccs w) ++
+    flat_map (fun k => match find_cc k (w_ccs w), find_cc k (w_ccache w) with
+                       | None, Some o => [CDel o] | _, _ => [] end) (sort_by str_ltb (map o_name (w_ccache w))).
+
   Definition step (w : world) (o : op) : world * obs :=
     match o with
     | UCreateNode name ls cs =>
@@ -344,6 +368,14 @@ Section Step.
         (match w_ctl w with
          | Some _ => set_queues w (w_nq w) (fold_left (fun q k => q_add k q) (sort_by str_ltb (map o_name (w_ccache w))) (w_cq w))
          | None => w end, no_obs)
+    | RelistNodes =>
+        if w_synced w then
+          deliver_all_n (set_caches w (w_ncache w) (w_ccache w) [] (w_cfeed w)) (relist_nevents w) 0
+        else (w, no_obs)
+    | RelistCCs =>
+        if w_synced w then
+          (deliver_all_c (set_caches w (w_ncache w) (w_ccache w) (w_nfeed w) []) (relist_cevents w), no_obs)
+        else (w, no_obs)
     | FetchNode wk key =>
         (set_fetch w ((wk, (key, find_node key (w_ncache w))) :: filter (fun x => negb (fst x =? wk)) (w_nfetch w)) (w_cfetch w), no_obs)
     | RunNode wk outs =>
